@@ -20,8 +20,14 @@ MANIFEST = dict(
               "termination by an explicit fuel bound) + differential correspondence with the implementation",
     text="Lean, for every tree, every string (well-formed or not), every fuel, dict and list roots. "
          "(1) Equations, no hypothesis: get returns what item access returns and the caller's default exactly when item access "
-         "raises one of the funnelled classes or a plain missing key (C04_default_iff_miss); first is get with single-match "
-         "unwrapping (C04_first_eq); '?'-prefixed item access never raises a funnelled class and yields '' on a miss (C04_qmark, "
+         "raises one of the funnelled classes or a plain missing key (C04_default_iff_miss); first (fix C04-f: it looks the path up with a private marker object as default, hands "
+         "the caller's default back untouched when the marker returns and unwraps only a FOUND one-element list) is modelled "
+         "with getCoreS, the marker-valued transcription of _get, proved to be getCore with the marker replaced by the default "
+         "for every root, path and flag (C04_marker_lookup); C04_first_eq is its defining equation, "
+         "C04_first_default_identity: when the lookup first performs (return_lists=False, asked to raise) raises a funnelled "
+         "class or the KeyError of a plain missing key, first returns exactly the default d, whatever value d is - ['D'], "
+         "[None], [[]] included (before the fix: 'D', None, []); C04_first_hit: when it resolves to v, first returns v with a "
+         "one-element list unwrapped, for every default; '?'-prefixed item access never raises a funnelled class and yields '' on a miss (C04_qmark, "
          "C04_qmark_miss_is_empty). "
          "(2) Purity and totality, proved under the hypothesis that the text 'new()' occurs neither in the path (Safe) nor in a "
          "dict key of the tree (SafeTree): the resolver n0dict._find / n0list._find, all branches ('..', '*', '[*]', conditions, "
@@ -73,7 +79,10 @@ MANIFEST = dict(
          "The model of every lookup entry point (dict and list roots) is compared with the real code on token soup over the "
          "full xpath alphabet and on misses derived from real paths; the statement is executed on the implementation (no "
          "exception from get/first, default iff item access raises, only the five allowed classes from item access, tree "
-         "unchanged).",
+         "unchanged). The defaults passed are 'DFLT', None (also omitted), ['D'], ('D',), [None], [[]], {}, 0, '', [1, 2], [] "
+         "and the oracle on a miss is IDENTITY: get(miss, d) is d and first(miss, d) is d ('' for a '?' path); on a hit first "
+         "must not hand the default object out (evaluators lookup, lookup/exhaustive, lookup/new-step, lookup/long; the "
+         "correspondence streams carry the list / dict / '' defaults too - the value model has no tuples).",
     note="known finding C04-d: a dict key named '*' (or '..' below a '*' step) makes a '*' step recurse until the interpreter's "
          "limit: every such lookup is a miss, also N({'*': {'x': 1}})['*/x'] which resolves (trees of the harness have plain-name "
          "keys, so the streams do not meet it). Paths with a '[new()]' step are generated and "
